@@ -1,4 +1,4 @@
-import TextxVerif.Proofs.RepoLookup
+import TextxVerif.Proofs.RepoEntryFail
 /-!
 # C18 — a failing multi-file load leaves the model repositories clean
 
@@ -13,6 +13,15 @@ Each enclosing `parse_tree_to_objgraph` frame runs
 
 The theorems quantify over every `Spec` (import graph, fault placement: any
 file, any phase, several faults at once) and every well-formed state.
+
+`C18_clean` / `C18_survivors` / `C18_repair` are about `model_from_file` (and
+`model_from_str(text, file_name=f)`, which is the same `loadMain`).  The second
+half covers the other entry points of a load (TextxVerif/RepoEntry.lean): a main
+model **without file name** (`loadStr`: registered under an invented name
+`anonymous{k}` by its first `load_model` call, not at all when it issues none) in
+`C18_entry_*` — one statement for both kinds of main model, so that the failing
+load and the repaired reload may use different entry points —, and the explicit
+pre-load `GlobalRepo.load_models_in_model_repo` (`C18_preload_fail`).
 -/
 namespace Repo
 
@@ -83,6 +92,70 @@ theorem C18_repair (S S' : Spec) (fuel fuel' : Nat) (st0 : St) (f f' : File) (st
   · intro e he
     rw [hN]; exact List.mem_append_left _ (by rw [hall]; exact he)
 
+/-! ## the other entry points: a main model without file name, the explicit pre-load -/
+
+/-- The name textX invents for a model without file name (`anonymous{k}`, smallest unused `k`,
+counted from `a0`) is admissible: the hypothesis `he` of the `C18_entry_*` theorems holds for it. -/
+theorem C18_str_name_admissible (S : Spec) (st : St) (a0 : File) :
+    (Entry.str (anonKey a0 (base S st).all)).Admissible S st :=
+  anonKey_fresh a0 (base S st).all
+
+/-- **Clean global repository, any entry point.**  A failing load of a main model with file name
+(`Entry.file`) or without (`Entry.str`, whatever invented name it would have been registered under)
+leaves the metamodel's global repository *equal* to the one before, and the state well formed. -/
+theorem C18_entry_clean (S : Spec) (fuel : Nat) (st0 : St) (e : Entry) (st' : St) (k : Kind) (j : Inst)
+    (hwf : WF st0) (hg : S.glob = true) (he : e.Admissible S st0) (h : e.run S fuel st0 = (st', .fail k, j)) :
+    st'.all = st0.all ∧ WF st' := by
+  obtain ⟨hI, hall, hS⟩ := Entry.run_fail S fuel st0 e (hwf.base S) he h
+  exact clean_of_fail hwf hg hI hall hS
+
+/-- **Surviving repositories, any entry point**, with or without a global repository. -/
+theorem C18_entry_survivors (S : Spec) (fuel : Nat) (st0 : St) (e : Entry) (st' : St) (k : Kind) (j : Inst)
+    (hwf : WF st0) (he : e.Admissible S st0) (h : e.run S fuel st0 = (st', .fail k, j)) :
+    ∀ i, i < st0.next → st'.loc i = st0.loc i ∧ st'.fileOf i = st0.fileOf i ∧ st'.defsOf i = st0.defsOf i := by
+  obtain ⟨hI, _, hS⟩ := Entry.run_fail S fuel st0 e (hwf.base S) he h
+  exact survivors_of_fail hI hS
+
+/-- **Repair, any entry points.**  After a load through `e` failed, load again through any entry point
+`e'` (the same or another one) with the files as they are then: without faults the load can only fail
+at a reference without visible definition; when it succeeds the state is well formed, every repository
+entry is one cached before the failure or an instance created by the new load — nothing of the failed
+attempt, in particular no half-constructed model under an invented name —, and everything cached
+before is still there. -/
+theorem C18_entry_repair (S S' : Spec) (fuel fuel' : Nat) (st0 : St) (e e' : Entry) (st' : St) (k : Kind) (j : Inst)
+    (hwf : WF st0) (hg : S.glob = true) (he : e.Admissible S st0) (h : e.run S fuel st0 = (st', .fail k, j)) :
+    (NoFault S' → (e'.run S' fuel' st').2.1 = .ok ∨ (e'.run S' fuel' st').2.1 = .fail .semantic ∨
+        (e'.run S' fuel' st').2.1 = .fuel) ∧
+      (∀ st'' j', S'.glob = true → e'.Admissible S' st' → e'.run S' fuel' st' = (st'', .ok, j') →
+        WF st'' ∧ (∀ x ∈ st''.all, x ∈ st0.all ∨ st'.next ≤ x.2) ∧ (∀ x ∈ st0.all, x ∈ st''.all)) := by
+  obtain ⟨hall, hwf'⟩ := C18_entry_clean S fuel st0 e st' k j hwf hg he h
+  refine ⟨fun hS' => Entry.run_nofault S' hS' fuel' st' e', ?_⟩
+  intro st'' j' hg' he' h'
+  obtain ⟨f', hok⟩ := Entry.run_ok S' fuel' st' e' (hwf'.base S') he' h'
+  have hb : base S' st' = st' := by simp [base, hg']
+  rw [hb] at hok
+  obtain ⟨N, hN, hge⟩ := hok.invW.split
+  refine ⟨hok.wf, ?_, ?_⟩
+  · intro x hx
+    rw [hN] at hx
+    rcases List.mem_append.1 hx with h1 | h1
+    · left; rw [← hall]; exact h1
+    · right; exact hge x h1
+  · intro x hx
+    rw [hN]; exact List.mem_append_left _ (by rw [hall]; exact hx)
+
+/-- **Failing pre-load** (`GlobalRepo.load_models_in_model_repo` into the global repository; every
+`load_model(…, is_main_model=True)` of it is a load of its own).  The pre-load had completed the main
+loads of the calls `cs1` before the failing one; the failing call is a pattern without file or a main
+load that failed — and left the dict exactly as the completed loads had left it.  Everything cached
+before the pre-load is still there (same instances, same order), the state is well formed. -/
+theorem C18_preload_fail (S : Spec) (hg : S.glob = true) (fuel : Nat) (calls : List (Option File))
+    (st0 st' : St) (k : Kind) (hwf : WF st0) (h : preload S fuel st0 calls = (st', .fail k)) :
+    WF st' ∧ (∃ N, st'.all = st0.all ++ N) ∧
+      ∃ cs1 c cs2 st1, calls = cs1 ++ c :: cs2 ∧ preload S fuel st0 cs1 = (st1, .ok) ∧ st'.all = st1.all ∧
+        ((c = none ∧ st' = st1) ∨ ∃ g j, c = some g ∧ loadMain S fuel st1 g = (st', .fail k, j)) :=
+  preload_fail S hg fuel calls st0 st' k hwf h
+
 /-! ## non-vacuity: every phase failing in an imported file and in the main file -/
 
 /-- file 0 imports 1 and 2, file 1 imports 2 and 0; the fault sits in file `v` -/
@@ -109,5 +182,38 @@ example : (loadMain (exF 3 0) 4 exSt 0).2.1 = .fail .modproc ∧ (loadMain (exF 
 /-- the repaired reload succeeds and uses fresh instances 4, 5, 6 next to the cached one -/
 example : (loadMain (exF 9 0) 4 (loadMain (exF 3 0) 4 exSt 0).1 0).2.1 = .ok ∧
     (loadMain (exF 9 0) 4 (loadMain (exF 3 0) 4 exSt 0).1 0).1.all = [(3, 0), (0, 4), (1, 5), (2, 6)] := by decide
+
+/-- a GlobalRepo provider over files 0 and 1 (they see each other); 5 is the invented name of a model without
+file name that sees both; the fault sits in text `v` -/
+def exG (phase : Nat) (v : File) : Spec where
+  calls := fun f => match f with
+    | 0 => [some 0, some 1] | 1 => [some 0, some 1] | 5 => [some 0, some 1] | 6 => [some 0, some 1] | _ => []
+  defs := fun f => match f with | 0 => [5] | 1 => [6] | 5 => [7] | 6 => [7] | _ => []
+  refs := fun f => (match f with | 0 => [6] | 1 => [5] | 5 => [5, 7] | 6 => [6, 7] | _ => []) ++
+    (if phase = 1 ∧ f = v then [99] else [])
+  syntaxErr := fun f => phase = 0 ∧ f = v
+  objFault := fun f => phase = 2 ∧ f = v
+  modFault := fun f => phase = 3 ∧ f = v
+  builtins := []
+  glob := true
+
+/-- a model without file name was loaded successfully before: it is cached as `anonymous0` = 5 -/
+def exGt : St := (loadStr (exG 9 0) 4 St.init 5).1
+
+example : exGt.all = [(5, 0), (0, 1), (1, 2)] := by decide
+example : anonKey 5 exGt.all = 6 := by decide
+-- the next model without file name (invented name 6) fails in each phase, in its own text and in a file
+example : (loadStr (exG 1 6) 4 St.init 6).2.1 = .fail .semantic ∧ (loadStr (exG 1 6) 4 St.init 6).1.all = [] := by decide
+example : (loadStr (exG 0 1) 4 St.init 6).2.1 = .fail .syntax ∧ (loadStr (exG 0 1) 4 St.init 6).1.all = [] := by decide
+example : (loadStr (exG 2 6) 4 exGt 6).2.1 = .fail .objproc ∧ (loadStr (exG 2 6) 4 exGt 6).1.all = exGt.all := by decide
+example : (loadStr (exG 3 6) 4 exGt 6).2.1 = .fail .modproc ∧ (loadStr (exG 3 6) 4 exGt 6).1.all = exGt.all := by decide
+/-- the repaired reload gets the invented name 6 again and links to the cached files -/
+example : (loadStr (exG 9 0) 4 (loadStr (exG 1 6) 4 exGt 6).1 6).2.1 = .ok ∧
+    (loadStr (exG 9 0) 4 (loadStr (exG 1 6) 4 exGt 6).1 6).1.all = [(5, 0), (0, 1), (1, 2), (6, 4)] := by decide
+/-- a failing pre-load: file 1 has a syntax error, nothing stays; a pattern without file after a completed load -/
+example : (preload (exG 0 1) 4 St.init [some 0, some 1]).2 = .fail .syntax ∧
+    (preload (exG 0 1) 4 St.init [some 0, some 1]).1.all = [] := by decide
+example : (preload (exG 9 0) 4 St.init [some 0, none]).2 = .fail .io ∧
+    (preload (exG 9 0) 4 St.init [some 0, none]).1.all = [(0, 0), (1, 1)] := by decide
 
 end Repo
